@@ -61,6 +61,18 @@ def make_case(rng, ops=ALLOPS, depth=None, storages=("local", "array")):
         outer = rng.choice([o for o in (">>", "//", "%") if o in ops])
         expr = [outer, inner, ["c", rng.choice([1, 4, 31, 33, 63]) if outer == ">>" else rng.choice([3, 7, 1000, 2 ** 31 - 1])]]
     case = {"decls": decls, "values": values, "reginit": reginit, "regs": regs, "expr": expr, "dest": "d"}
+    plain = [(n, f) for n, st_, f in decls[:-1] if st_ == "local" and len(f) == 1 and f in "bhiBHIqQ"]
+    if plain and rng.random() < 0.12:
+        # one local variable is read through a COMPUTED address (stack pointer + register + constant) instead of the usual stack
+        # pointer + constant; signed narrow variables holding negative values preferred
+        neg = [(n, f) for n, f in plain if f in "bhi"]
+        n, f = rng.choice(neg or plain)
+        if f in "bhi" and rng.random() < 0.7:
+            values[n] = -abs(values[n]) - 1 if values[n] > -(1 << (8 * dsl.fmt_size(f) - 1)) + 1 else values[n]
+        free = [r for r in (6, 7, 8) if r not in reginit]
+        case["vm"] = [n, free[0], rng.choice([0, 8, 16, 40])]
+        if not any(x[0] == "v" and x[1] == n for x in nodes(expr)):
+            case["expr"] = [rng.choice(["+", "-", "*", ">>"]), ["v", n], rng.choice([["c", 1], ["c", 3], expr])]
     if rng.random() < 0.15:
         # the destination is a register; in most of these cases the expression reads that register itself
         # (left, right, below a unary operator or deeper in the right operand)
@@ -101,8 +113,25 @@ def dest_fmt(case):
     return [f for n, _, f in case["decls"] if n == case["dest"]][0]
 
 
+def via_memory(case, expr):
+    """the expression as it is BUILT: for cases with "vm" = [name, regno, c] the reads of that local variable go through a computed
+    address (register regno holds c); model and oracle see the plain variable"""
+    vm = case.get("vm")
+    if not vm:
+        return expr
+    if expr[0] == "v" and expr[1] == vm[0]:
+        return ["vm", vm[0], vm[1], vm[2]]
+    if expr[0] in ("c", "v", "r"):
+        return expr
+    return [expr[0]] + [via_memory(case, sub) for sub in expr[1:]]
+
+
 def statements(case):
     st = [["set", ["r", "r", no], ["c", v]] for no, v in sorted(case["reginit"].items())]
+    if case.get("vm"):
+        st.append(["set", ["r", "r", case["vm"][1]], ["c", case["vm"][2]]])
+    expr_ = via_memory(case, case["expr"])
+    case = dict(case, expr=expr_)
     if case.get("regdest"):
         st.append(["set", ["r", case["regdest"][0], case["regdest"][1]], case["expr"]])
         if case["regdest"][1] == 0:
